@@ -14,5 +14,5 @@ CONF = {
                     'gopacket.LayerString/LayerDump/LayerGoString total on non-nil layers (reflective); BFDDiagnostic/BFDState/BFDAuthType String are switches with a default',
                     'C06 is about a BFD layer with nothing under it (the length octet covers the whole packet; the authentication section is appended behind the buffer content)'],
     'trusted_base': ['model: coq/Model/LbfdModel.v is a hand transcription of layers/bfd.go:231-482 as repaired (fixer: 2 commits, agent-lmisc2: AuthHeader cleared)'],
-    'explanation': 'Theorems over all byte strings / layer values about the Gallina model of the BFD codec; correspondence ties it to layers/bfd.go.',
+    'explanation': 'Theorems (incl. the round trip) over all byte strings / layer values about the Gallina model of the BFD codec; correspondence ties it to layers/bfd.go.',
 }
